@@ -1481,6 +1481,12 @@ def shard_bip21(ctx: Ctx) -> None:
                 ("amount-comma", f"bitcoin:{addr}?amount=1,5"), ("amount-negative", f"bitcoin:{addr}?amount=-1"),
                 ("amount-exponent", f"bitcoin:{addr}?amount=1e3"), ("amount-empty", f"bitcoin:{addr}?amount="),
                 ("amount-two-dots", f"bitcoin:{addr}?amount=1.0.0"), ("amount-spaces", f"bitcoin:{addr}?amount=%201"),
+                ("amount-plus", f"bitcoin:{addr}?amount=%2B1"), ("amount-infinity", f"bitcoin:{addr}?amount=Infinity"),
+                ("amount-nan", f"bitcoin:{addr}?amount=NaN"), ("amount-underscore", f"bitcoin:{addr}?amount=1_0"),
+                ("amount-hex", f"bitcoin:{addr}?amount=0x10"),
+                # digits of other scripts are decimal digits to str.isdigit, \d and Decimal, and not to BIP21's *digit
+                ("amount-non-ascii-digits", f"bitcoin:{addr}?amount=" + ra.pct_encode(rng.choice(["\u0661\u0662", "\uff11", "1.\u0665", "\u0967.5", "\u0e51"]))),
+                ("amount-non-ascii-digits-raw", f"bitcoin:{addr}?amount=" + rng.choice(["\u0661\u0662", "\uff11.5", "0.\u0665"])),
                 ("wrong-scheme", "bitcoins:" + addr), ("no-scheme", addr),
                 ("address-corrupted", "bitcoin:" + addr[:-1] + ("q" if addr[-1] != "q" else "p"))]
         tag, bad = bads[it % len(bads)]
